@@ -1119,6 +1119,8 @@ func argKinds(dir string) []string {
 		"10.0.0.1", "2001:db8::1", "::ffff:10.0.0.1", "10.0.0.0/24", "2001:db8::/32", "2001:db8::/60", "2001:d00::/24", "10.0.0.200",
 		"10.0.0.0/24,10.0.0.1", "2001:db8::/32,10.0.0.1", "10.0.0.0/24,2001:db8::1", "10.0.0.0/24,10.0.0.1,extra",
 		"::ffff:10.0.0.0/104,192.168.1.1", "10.0.0.0/24,::ffff:10.0.0.1", "fe80::/10,10.0.0.1",
+		// destinations without a length (a host? refused today), host routes, a length of zero bits on a host address (round 9)
+		"192.168.7.9,192.168.1.1", "192.168.7.9/32,192.168.1.1", "::ffff:10.0.0.9,10.0.0.1", "10.0.0.9/0,10.0.0.1", "10.0.0.0/24,10.0.0.1/24",
 		"30s", "-5s", "garbage", "1500", "70000", "-1", "64", "200",
 		"http://boot.example/x.efi", "tftp://10.0.0.2/pxe.0", "%zz://bad url", "ll", "llt", "en", "aa:bb:cc:dd:ee:ff",
 		"255.255.255.0", "255.0.255.0", "0.0.0.0", good, good6, bad, filepath.Join(dir, "missing.txt"), "", "autorefresh", "AutoConfigure",
